@@ -809,6 +809,7 @@ def build_backbone(rng, links, *, chains=1, icn="?", ocn="?", absent_occ=None, h
             res = {"ch": ch, "num": num, "ic": ic, "rn": rn, "het": 1 if rn in ("PSU", "5MC", "1MA") else 0,
                    "lch": ch + "X" if c else ch, "lnum": lnum, "icn": icn, "ocn": ocn}
             jitter = (rng.randrange(-200, 201), rng.randrange(-200, 201), rng.randrange(-200, 201))
+            mirror = rng.random() < 0.5     # mirrored nucleotide: the sign of chi flips
             link = links[r] if r < len(links) else None
             for name, off in _NT.items():
                 if name == "P" and prev_link == "noP":
@@ -821,6 +822,8 @@ def build_backbone(rng, links, *, chains=1, icn="?", ocn="?", absent_occ=None, h
                 elif name == "CB":
                     an = "C4" if purine else "C2"
                     off = _add(off, jitter)
+                if mirror:
+                    off = (off[0], off[1], -off[2])
                 occ = 100
                 if absent_occ is not None and rng.random() < 0.25:
                     occ = -1
